@@ -430,7 +430,7 @@ func (v *Verifier) assumptionList(units []*checkUnit) []string {
 	add := func(s string) { set[s] = true }
 	add("the hvc VC generator and its memory model (unverified; exercised by the must-fail corpus and replay)")
 	add("go/ssa as the semantics of the Go subset; SMT solver soundness")
-	add("pointer/slice parameters are non-nil unless declared nullable, valid, and of size < 2^62")
+	add("pointer/slice parameters are non-nil unless declared nullable and valid; no slice or string has more than 2^40 elements")
 	for _, u := range units {
 		if u.root == nil {
 			continue
